@@ -1,1 +1,2 @@
 import Gen.Flags
+import Gen.Excerpt
